@@ -128,6 +128,67 @@ Proof. exact repeated_export_list. Qed.
 Print Assumptions C11_repeated_export_list.
 
 (* ---------------------------------------------------------------------------------------------- *)
+(* Round 3: objects used more than once, modified in place between two uses                         *)
+(* ---------------------------------------------------------------------------------------------- *)
+
+(* The rows iterator from_arrow returns, consumed in ANY sequence of steps - next(it), islice(it, k) / a for loop
+   left with break after k rows, list(it) - on the same object: each step delivers the next rows of
+   E = limit size (all rows of all tables), in order, nothing skipped, nothing repeated ([ispec]: firstn / skipn). *)
+Theorem C11_stream_any_consumption :
+  forall (R T : Type) (process_table : T -> N -> list R) (rows_of : T -> list R),
+  (forall t b, (1 <= b)%N -> process_table t b = rows_of t) ->
+  forall (tables : list T) (size : option N) (ops : list iop),
+  irun process_table (from_arrow_iter tables size) ops = ispec (limit size (concat (map rows_of tables))) ops.
+Proof. exact stream_any_consumption. Qed.
+Print Assumptions C11_stream_any_consumption.
+
+(* What [ispec] means: the steps of a session partition a prefix of E, and all of E once a list(it) has run. *)
+Theorem C11_session_partitions_rows :
+  forall (R : Type) (E : list R) (ops : list iop),
+  (exists rest, concat (ispec E ops) ++ rest = E) /\
+  (forall pre post, ops = pre ++ IDrain :: post -> concat (ispec E ops) = E).
+Proof. exact session_partitions_rows. Qed.
+Print Assumptions C11_session_partitions_rows.
+
+(* ONE frame, any sequence of arrow(size) / rowcount / materialize() calls and in-place renames of its columns:
+   every call answers from the rows E the frame holds and the column names in force at that moment ([sspec] is a
+   function of E, the current names and the call alone - no memory of earlier calls). *)
+Theorem C11_frame_session_lazy :
+  forall (C T Nm : Type) (process_table : T -> N -> list (list C)) (rows_of : T -> list (list C)),
+  (forall t b, (1 <= b)%N -> process_table t b = rows_of t) ->
+  forall (tables : list T) (size : option N) (names : list Nm) (ops : list (sop Nm)),
+  srun process_table (FLazy (from_arrow_iter tables size)) names ops =
+  sspec (limit size (concat (map rows_of tables))) names ops.
+Proof. exact frame_session_lazy. Qed.
+Print Assumptions C11_frame_session_lazy.
+
+Theorem C11_frame_session_list :
+  forall (C T Nm : Type) (process_table : T -> N -> list (list C)),
+  forall (rows : list (list C)) (names : list Nm) (ops : list (sop Nm)),
+  srun process_table (FList rows) names ops = sspec rows names ops.
+Proof. exact frame_session_list. Qed.
+Print Assumptions C11_frame_session_list.
+
+(* ONE column object, any sequence of in-place assignments (type, element type, precision, scale, name,
+   nullable) and reads (arrow_field, schema-level export with or without identities): a read after the steps
+   [pre] returns what a read of a column with the attributes [fold_left capply pre c] returns ... *)
+Theorem C11_column_session_current_values :
+  forall (ident : list N) (c : column) (pre : list cop) (op : cop) (post : list cop),
+  nth (length pre) (crun ident c (pre ++ op :: post)) None = cout ident (fold_left capply pre c) op.
+Proof. exact column_session_current_values. Qed.
+Print Assumptions C11_column_session_current_values.
+
+(* ... and if those current attributes are in the class the typing clause speaks about, the field read carries the
+   expected name and maps back to exactly the current type, element type, precision and scale. *)
+Theorem C11_column_session_round_trip :
+  forall (ident : list N) (c : column) (op : cop) (cur : column) (nm : list N) (fs : result (list afield)),
+  cout ident c op = Some (cur, nm, fs) -> roundtrippable c = true ->
+  cur = c /\ exists f, fs = Ok [f] /\ fname f = nm /\
+    from_arrow_field false f = Ok (mkCol nm (ctype c) (celem c) (cprec c) (cscale c) (fnullable f)).
+Proof. exact column_session_round_trip. Qed.
+Print Assumptions C11_column_session_round_trip.
+
+(* ---------------------------------------------------------------------------------------------- *)
 (* column typing (over the tables regenerated from the running code into Gen/C11_ArrowMap.v)        *)
 (* ---------------------------------------------------------------------------------------------- *)
 
@@ -293,6 +354,24 @@ Example C11_nonvacuous_repeated_export :
   construct (mkCol [100%N] ty_DECIMAL None (Some 38%Z) (Some 10%Z) true) = mkCol [100%N] ty_DECIMAL None (Some 38%Z) (Some 10%Z) true /\
   construct (mkCol [100%N] ty_DECIMAL None None None true) = mkCol [100%N] ty_DECIMAL None (Some ctor_ctx_prec) (Some (Z.quot (3 * ctor_ctx_prec) 4)) true.
 Proof. vm_compute. repeat split; try reflexivity. eexists; reflexivity. Qed.
+
+(* Round 3: sniff a row, take a page of two, read the rest (zero-row table in the middle, cap 4); a column retyped
+   and re-scaled in place between two reads; a frame renamed between two exports *)
+Example C11_nonvacuous_sessions :
+  irun pt_rows (from_arrow_iter [[[CInt 1]; [CInt 2]; [CInt 3]]; []; [[CInt 4]; [CInt 5]]] (Some 4%N))
+       [INext; ITake 2; IDrain; INext] = [[[CInt 1]]; [[CInt 2]; [CInt 3]]; [[CInt 4]]; []] /\
+  (match crun [105%N] (mkCol [100%N] ty_DECIMAL None (Some 10%Z) (Some 2%Z) true)
+               [CField; CSetPrec (Some 38%Z); CSetScale (Some 0%Z); CField; CSetType ty_INTEGER; CSchema true] with
+   | [Some (_, _, Ok [f1]); None; None; Some (_, _, Ok [f2]); None; Some (_, n3, Ok [f3])] =>
+       from_arrow_field false f1 = Ok (mkCol [100%N] ty_DECIMAL None (Some 10%Z) (Some 2%Z) (fnullable f1)) /\
+       from_arrow_field false f2 = Ok (mkCol [100%N] ty_DECIMAL None (Some 38%Z) (Some 0%Z) (fnullable f2)) /\
+       n3 = [105%N] /\ fname f3 = [105%N]
+   | _ => False
+   end) /\
+  srun pt_rows (FLazy (from_arrow_iter [[[CInt 1]]] None)) [[97%N]]
+       [SOp (OpArrow None); SRename 0 [98%N]; SOp (OpArrow None)] =
+    [([[97%N]], OutTable [[CInt 1]]); ([[98%N]], OutNone); ([[98%N]], OutTable [[CInt 1]])].
+Proof. vm_compute. repeat split; reflexivity. Qed.
 
 (* the witnesses of the fixed findings F-C11-3 and F-C11-4 *)
 Example C11_nonvacuous_types :
